@@ -45,9 +45,10 @@ def kinds_of(v):
 # ----------------------------------------------------------------------------- pitch / keys (reference)
 BASE = {"C": 0, "D": 2, "E": 4, "F": 5, "G": 7, "A": 9, "B": 11}
 FIFTHS_LINE = "FCGDAEB"
-MOD_TEXT = {None: "-", 0: "n", 1: "#", 2: "x", -1: "b", -2: "bb"}
-# every accidental spelling the readers accept (partitura.utils.music.SIGN_TO_ALTER minus triple alterations)
-MOD_VARIANTS = {0: ["n"], 1: ["#", "s", "ns"], 2: ["x", "##", "ss"], -1: ["b", "f", "nf"], -2: ["bb", "ff"], None: ["-"]}
+MOD_TEXT = {None: "-", 0: "n", 1: "#", 2: "x", -1: "b", -2: "bb", 3: "###", -3: "bbb"}
+# every accidental spelling the readers accept (partitura.utils.music.SIGN_TO_ALTER)
+MOD_VARIANTS = {0: ["n"], 1: ["#", "s", "ns"], 2: ["x", "##", "ss"], -1: ["b", "f", "nf"], -2: ["bb", "ff"], None: ["-"],
+                3: ["###"], -3: ["bbb"]}
 
 
 def ref_midi_pitch(step, alter, octave):
@@ -208,7 +209,7 @@ def note_text(v, n):
     head = "note(%s,[%s,%s],%d," % (n["id"], step, MOD_TEXT[n["alter"]], n["octave"])
     if v < V030:
         return head + "%s,%s,%d)." % (ffix(n["onset"], 2), ffix(n["offset"], 2), n["velocity"])
-    return head + "%d,%d,%d,%d)." % (n["onset"], n["offset"], n["adj_offset"], n["velocity"])
+    return head + "%d,%d,%d,%d)." % (n["onset"], n["offset"], n.get("adj_offset", n["offset"]), n["velocity"])
 
 
 def timesig_text(ts, as_list):
@@ -373,12 +374,16 @@ def _ident_from(k):
     if suf == 5:
         k, n = divmod(k, 20)
         s += "-%d" % (n + 1)
+    elif suf == 4:  # audit: several dash groups (1-2-3, n7-1-2: repeats inside repeats, hand-numbered files)
+        k, n = divmod(k, 20)
+        k, m = divmod(k, 20)
+        s += "-%d-%d" % (n + 1, m + 1)
     return s
 
 
 def ident():
     """Identifiers without separators: n12, 17, P01_n3, n5-1 (suffix of unfolded repeats)."""
-    return st.integers(0, 10 * 6 * 52 * 8 * 63 ** 7 * 20).map(_ident_from)
+    return st.integers(0, 10 * 6 * 52 * 8 * 63 ** 7 * 20 * 20).map(_ident_from)
 
 
 ATTR_TOKENS = ["s", "stacc", "arp", "grace", "fermata", "leftOutTied", "voice_overlap", "trill", "diff_score_version",
@@ -402,8 +407,12 @@ def attr_token():
     return st.integers(0, 3 * 8 * 64 ** 8).map(_token_from)
 
 
-def attr_list(min_size=0, max_size=5):
-    return st.lists(attr_token(), min_size=min_size, max_size=max_size)
+@st.composite
+def attr_list(draw, min_size=0, max_size=5, long_too=False):
+    # audit: "attribute lists of any length": one list in eight is longer than the usual 0..5
+    if long_too and draw(st.integers(0, 7)) == 7:
+        return draw(st.lists(attr_token(), min_size=max_size + 1, max_size=3 * max_size))
+    return draw(st.lists(attr_token(), min_size=min_size, max_size=max_size))
 
 
 DENS = [1, 2, 4, 8, 16, 32, 64, 128, 3, 6, 12, 24, 48, 5, 10, 20, 7, 9]
@@ -542,7 +551,9 @@ def snote_decimals(v):
     return 4 if v == V100 else (None if v >= V030 else 5)
 
 
-ALTERS = [0, 0, 0, 1, -1, 2, -2]
+# audit: the triple alterations the readers accept (###, bbb) are field values like any other
+ALTERS = [0, 0, 0, 1, -1, 2, -2, 0, 1, -1, 3, -3]
+PITCH_RANGE = 8 * 7 * len(ALTERS) * 2 * 11
 
 
 def _pitch_from(k, rests=True):
@@ -560,7 +571,7 @@ def _pitch_from(k, rests=True):
 @st.composite
 def snote(draw, v):
     dec = snote_decimals(v)
-    step, alter, octave = _pitch_from(draw(st.integers(0, 8 * 7 * 7 * 2 * 11)), rests=True)
+    step, alter, octave = _pitch_from(draw(st.integers(0, PITCH_RANGE)), rests=True)
     k = draw(st.integers(0, 2 * 301 * 12 * 4 * 6))
     k, small = divmod(k, 2)
     k, measure = divmod(k, 301)
@@ -586,7 +597,7 @@ def snote(draw, v):
         "duration": draw(duration()),
         "onset": onset,
         "end": end,
-        "attrs": draw(attr_list()),
+        "attrs": draw(attr_list(long_too=True)),
     }
 
 
@@ -609,7 +620,7 @@ def pnote(draw, v):
         k, ch = divmod(k, 17)
         k, tr = divmod(k, 21)
         return {"id": draw(ident()), "pitch": pitch, "onset": on, "offset": on + dur, "velocity": vel, "channel": ch, "track": tr}
-    step, alter, octave = _pitch_from(draw(st.integers(0, 8 * 7 * 7 * 2 * 11)), rests=False)
+    step, alter, octave = _pitch_from(draw(st.integers(0, PITCH_RANGE)), rests=False)
     n = {"id": draw(ident()), "step": step, "alter": alter, "octave": max(octave, 0) if octave < 9 else 8, "velocity": vel}
     if v < V030:
         k, _ = divmod(k, 128 * 17 * 21)
@@ -624,7 +635,12 @@ def pnote(draw, v):
         k, _ = divmod(k, 128 * 17 * 21)
         n["onset"] = on
         n["offset"] = on + dur
-        n["adj_offset"] = on + dur + [0, 0, 1, 37, 4000][k % 5]
+        # audit: adj_offset is an optional keyword of the constructor (absent: equal to the offset)
+        adj = [0, 0, 1, 37, 4000][k % 5]
+        if draw(st.integers(0, 5)) == 5:
+            adj = None
+        if adj is not None:
+            n["adj_offset"] = on + dur + adj
     return n
 
 
